@@ -586,6 +586,11 @@ pub fn run_session<C: Autocomplete + Help>(
                     // recall and completion replace the line: what they leave must still be a line (C05)
                     found!("C05", P_C05, "replaced-line-invalid", format!("{}-{}", op_name(op, &key), class), i, "the line after recall / completion is not a sequence of characters within the buffer: {}", what);
                 }
+                if what.contains("history") && !matches!(&key, Shadow::Key(Key::Up) | Shadow::Key(Key::Down)) {
+                    // whatever call broke the stored entries (normally the Enter that recorded a line): they are what
+                    // Up / Down will show
+                    found!("C10", P_C10, "stored", format!("invalid-state-{}", class), i, "the stored history is no longer a sequence of recorded lines after {}: {}", op_name(op, &key), what);
+                }
                 match (&key, op) {
                     (Shadow::Key(Key::Tab), _) => found!("C11", P_C11, "completion", format!("invalid-line-{}", class), i, "Tab left the edited line in an invalid state: {}", what),
                     (Shadow::Key(Key::Up), _) | (Shadow::Key(Key::Down), _) => found!("C10", P_C10, "recall", format!("invalid-state-{}", class), i, "recall left the line / history in an invalid state: {}", what),
